@@ -154,6 +154,20 @@ pub fn check_history(cfg: &ModelCfg, calls: &[CallRec], out: &mut Outcome) {
         };
         let bypass = emit_text.map(|t| t.len() + tl > cap).unwrap_or(false);
         let what = kind_name(&c.kind);
+        // C19, independent of what the writes carry: a call may cause at most one successful
+        // socket write for the batch it must make room for / flush, plus (emit only) one for an
+        // exactly filled buffer; an oversize metric exactly one
+        {
+            let n_ok = c.attempts.iter().filter(|a| a.ok).count();
+            let allowed = match &c.kind {
+                CallKind::Emit { .. } if bypass => 1,
+                CallKind::Emit { .. } => 2,
+                CallKind::Flush | CallKind::Drop => 1,
+            };
+            if n_ok > allowed {
+                out.violate(&["C19"], "linebuf.too-many-writes", format!("call #{ci} ({what}) caused {n_ok} successful socket writes; in-order packing never needs more than {allowed} for such a call"));
+            }
+        }
         // candidate lines a write of this call may carry, in order
         let mut cand: Vec<(u32, Vec<u8>)> = remaining.clone();
         if let (Some(t), Some(id), false) = (emit_text, emit_id, bypass) {
